@@ -97,7 +97,16 @@ def run(chk, replay=None):
                                     'Lcapy/Model/ACConv.lean', 'Lcapy/Model/ACImmittance.lean', 'Lcapy/Generated/ACTable.lean',
                                     'Lcapy/Proofs/Cx.lean', 'Lcapy/Proofs/Phasor.lean', 'Lcapy/Driver/C14.lean'],
                       leanchecker=(chk.tier == 'thorough'))
+    import time as _time
+    tmark = {'t': chk.t0}
+    timing = chk.coverage.setdefault('timing_s', {})
+
+    def mark(name):
+        now = _time.time()
+        timing[name] = round(timing.get(name, 0) + now - tmark['t'], 1)
+        tmark['t'] = now
     drv = chk.get_driver()
+    mark('lean-build-and-audit')
     import lcapy
     import sympy as S
     from lcapy import state, t as tt
@@ -313,19 +322,33 @@ def run(chk, replay=None):
                         e = e.sympy if hasattr(e, 'sympy') else S.sympify(e)
                         return e.subs({q: rsub[S.Symbol(q.name)] for q in e.free_symbols if S.Symbol(q.name) in rsub})
                     vco = {}
+                    top = [str(n) for n in cct.node_list]
                     for n in cct.node_list:
                         if str(n) == '0':
                             continue
                         vco[str(n)] = sin_coeffs(S, tsub(cct[n].V(tt)), tt.sympy, freqs)
                     jco = {}
+                    # internal nodes created by the expansion of opamps exist only in the sub-netlists: matched, in order, with
+                    # the model's `_nodeanon_<name>` nodes; their time signal is the phasor's own `.time()`
+                    anon_m = ['_nodeanon_' + l.split()[0] for l in lines if ' opamp ' in l and len(l.split()) >= 9 and l.split()[8].strip('{}') not in ('0',)]
                     for w in freqs:
                         wk = [kk for kk in keys if not isinstance(kk, str) and S.simplify(S.sympify(kk) - S.Rational(w.numerator, w.denominator)) == 0][0]
                         mna_w = cct.sub[wk].mna
+                        extra = [str(n) for n in mna_w.Vdict if str(n) not in top and str(n) != '0']
+                        if len(extra) != len(anon_m):
+                            raise KeyError('internal nodes %s / %s' % (extra, anon_m))
+                        for a_, b_ in zip(sorted(extra, key=lambda q: int(''.join(ch for ch in q if ch.isdigit()) or 0)), anon_m):
+                            co = sin_coeffs(S, tsub(mna_w.Vdict[a_].time()), tt.sympy, [w])
+                            d_ = vco.setdefault(b_, {'dc': Fraction(0)})
+                            if co is None or d_ is None:
+                                vco[b_] = None
+                            else:
+                                d_[w] = co[w]
                         for bn in mna_w.unknown_branch_currents:
                             co = sin_coeffs(S, tsub(mna_w.Idict[bn].time()), tt.sympy, [w])
                             jco.setdefault(bn, {})[w] = None if co is None else co[w]
                 for w in freqs:
-                    if any(c_ is None for c_ in vco.values()) or any(jco[b_].get(w) is None for b_ in jco):
+                    if any(c_ is None or w not in c_ for c_ in vco.values()) or any(jco[b_].get(w) is None for b_ in jco):
                         chk.count('oracle', 'steady-state:not-a-rational-sinusoid')
                         continue
                     vs_t = ' '.join('%s=%s,%s' % (n, fstr(c_[w][0]), fstr(c_[w][1])) for n, c_ in vco.items())
@@ -359,6 +382,7 @@ def run(chk, replay=None):
         if nontriv:
             chk.sample({'netlist': llines, 'frequencies': [fstr(w) for w in freqs]})
 
+    mark('netlists')
     # (e) Ohm's law across frequencies with Lcapy's own operators: for a circuit driven at two or three angular
     #     frequencies, (cpt.V / cpt.Z) and (cpt.V * cpt.Y) must have, at EVERY frequency, the phasor V[w] * Y(jw) with Y the
     #     s-domain admittance of the element at s = jw (spec: 1/R, jwC, 1/(jwL)), and that is the reported cpt.I[w]
@@ -415,6 +439,7 @@ def run(chk, replay=None):
         except (Exception, common.TimeLimit) as ex:   # noqa
             chk.count('lcapy-error', 'ohm:' + type(ex).__name__ + ':' + str(ex)[:40])
 
+    mark('ohm-across-frequencies')
     # (d') sums of several same-frequency terms, including ones whose cosine parts cancel and
     #      phase-shifted forms with rational cos/sin (3-4-5 angle), symbolic amplitudes substituted afterwards
     A_, B_ = S.symbols('A_ B_', real=True)
@@ -508,6 +533,7 @@ def run(chk, replay=None):
                                'phasor round trip changes the sinusoid')
 
 
+    mark('conversions')
     # (g) ACChecker branch table (lcapy/acdc.py) against the Lean interpreter of the GENERATED table: single terms
     #     A f(wt + phi) (f = cos / sin, A of either sign, phi with rational cos / sin) and sums of two terms in every branch
     #     (quadrature parts cancel -> phase 0 with an amplitude of either sign, in-phase parts cancel -> phase pi/2, generic)
@@ -583,6 +609,7 @@ def run(chk, replay=None):
         except (Exception, common.TimeLimit) as ex:   # noqa
             chk.count('lcapy-error', 'acchecker:' + type(ex).__name__ + ':' + str(ex)[:40])
 
+    mark('acchecker')
     # (h) magnitude / phase / rms / abs / time() of phasors (Gaussian rationals, some with a rational magnitude),
     #     judged by the Lean predicate `ph.polar`: M^2 = |P|^2, M (cos phi, sin phi) = (re, im), rms^2 = |P|^2 / 2
     pyth = [(3, 4), (5, 12), (8, 15), (4, 3), (1, 0), (0, 1), (1, 1), (2, 1)]
@@ -622,6 +649,7 @@ def run(chk, replay=None):
                                 'spec': '|P|^2 = re^2 + im^2, |P| e^{j phase} = P, rms^2 = |P|^2/2, time() = re cos(wt) - im sin(wt)'},
                                'magnitude / phase / rms / time() of a phasor are inconsistent with the phasor')
 
+    mark('polar')
     # (i) phasor-domain immittance of one-port trees: net.Z(j w), net.Y(j w) and the generic phasor ratio Z(j omega)
     #     evaluated at omega = w, against the Lean textbook model `acImp` / `acAdm` (= the Laplace model at s = jw by
     #     Props/C14Imm net_imp_at_jw / net_adm_at_jw; the driver evaluates both and they must agree as well)
@@ -683,6 +711,7 @@ def run(chk, replay=None):
                                 'spec': 'phasor-domain immittance = s-domain immittance at s = j omega (R, j w L, 1/(j w C), series / parallel)'},
                                'one-port immittance at j omega differs from the phasor-domain value')
 
+    mark('immittance')
     # (j) omega = 0 is the DC analysis: the same circuit with `ac A 0 0` sources and with `dc A` sources; Lean: the model at
     #     s = j 0 against the model's dc analysis (Props/C14SS ac_at_zero_is_dc)
     for k in range(5 if quick else 60):
@@ -710,7 +739,10 @@ def run(chk, replay=None):
                 chk.coverage['correspondence']['disagreements'] += 1
                 disagreements.append({'netlist': dc_l, 'model dc': r_dc[:60], 'model ac 0': r_ac[:60]})
             continue
-        m_dc, m_ac = parse_reply(r_dc), parse_reply(r_ac)
+        if 'undef' in r_dc.split(' I ')[0] or 'undef' in r_ac.split(' I ')[0]:
+            chk.count('model', 'omega0:undefined-value')
+            continue
+        m_dc, m_ac = parse_reply(r_dc.split(' I ')[0]), parse_reply(r_ac.split(' I ')[0])
         chk.coverage['correspondence']['compared'] += 1
         if m_dc['V'] != m_ac['V'] or m_dc['J'] != m_ac['J']:
             chk.coverage['correspondence']['disagreements'] += 1
@@ -742,6 +774,7 @@ def run(chk, replay=None):
                                 'spec': 'phasor analysis at omega = 0 is the dc analysis'},
                                'node voltage at omega = 0 differs from the dc analysis')
 
+    mark('omega-zero')
     chk.coverage['correspondence']['samples_of_disagreement'] = disagreements[:5]
     if broken and n_cex == 0:
         for b in broken[:20]:
